@@ -1742,6 +1742,14 @@ func (g *tkGen) deploy(hostile bool) (rig.Tx, bool) {
 		// a denom with an ICS20 trace and no token record yet: the deployment creates the record
 		msg.Symbol, msg.Name, msg.Scale, msg.MinUnit = "ibcverif", "ibc voucher", 6, tkIBCDenom
 		tag.Var = "ics20-denom"
+	} else if g.evm != nil && rng.Intn(10) == 0 {
+		// denominations with an ICS20 trace deployed under one and the same mixed-case symbol: the first deployment creates
+		// the record, every later one names a taken symbol
+		g.serial++
+		msg.Symbol, msg.Name, msg.Scale, msg.MinUnit = "vWBTC", "ibc voucher, mixed-case symbol", 8, fmt.Sprintf("ibc/VERIFMIXED%d", g.serial)
+		tag.Sym = msg.Symbol
+		tag.Var = "ics20-denom-under-a-mixed-case-symbol"
+		g.run.Count("deploy-for-ics20-denom-under-a-mixed-case-symbol", 1)
 	} else if g.evm != nil && t != nil && rng.Intn(8) == 0 {
 		// a denom with an ICS20 trace and no token record, deployed under a symbol that already names another token
 		g.serial++
@@ -2734,6 +2742,9 @@ func (d *tkC10) installSwapFeeOp() {
 		}
 		srv := tokenkeeper.NewMsgServerImpl(r.K.Token.WithSwapRegistry(reg))
 		_, err := srv.SwapFeeToken(ctx, msg)
+		if err == nil && a.Var == "then-fail" {
+			return fmt.Errorf("harness: the transaction is rolled back after its fee swap")
+		}
 		return err
 	}
 }
@@ -2764,6 +2775,25 @@ func runTokenSwapFee(run *ev.Run, c int) {
 		o := r.Accounts[int(s)%len(r.Accounts)]
 		t := tkFeeTok{sym: fmt.Sprintf("f%02dx%s", s, g.fresh(3)), mu: fmt.Sprintf("mf%02d%s", s, g.fresh(3)), scale: s, owner: o}
 		toks = append(toks, t)
+	}
+	// before anything is issued for real: one transaction issues the tokens of scales 2 and 11 under their later minimum
+	// units but with the scales swapped, swaps one for the other - and is rolled back (its harness operation fails after
+	// the swap). Nothing of it may be left when the same minimum units are issued for real below
+	{
+		a, b, o := toks[2], toks[11], r.Accounts[0]
+		reg := []tkRegEntry{{From: a.mu, To: b.mu, Ratio: "1"}}
+		args := tkOpArgs{Reg: reg, Denom: a.mu, Amount: "1000000000000000", Sender: o.Addr.String(), Receiver: o.Addr.String(), Var: "then-fail"}
+		deliver([]rig.Tx{r.InjectOpAfter(o, &tkTag{Kind: "rolled-back-prologue"}, "tk-swapfee", args,
+			&v1.MsgIssueToken{Symbol: "rbk" + g.fresh(3), Name: "rolled back", Scale: b.scale, MinUnit: a.mu, InitialSupply: 1000000, MaxSupply: math.MaxUint64, Mintable: true, Owner: o.Addr.String()},
+			&v1.MsgIssueToken{Symbol: "rbk" + g.fresh(3), Name: "rolled back", Scale: a.scale, MinUnit: b.mu, InitialSupply: 1000000, MaxSupply: math.MaxUint64, Mintable: true, Owner: o.Addr.String()})})
+		if n := len(g.snap(r.Ctx()).(*tkSnap).Tokens); n > 1 {
+			run.Inconc("the rolled-back prologue of the fee-swap chain left %d token records", n)
+			return
+		}
+		run.Count("swapfee-prologue-rolled-back", 1)
+	}
+	for _, t := range toks {
+		o, s := t.owner, t.scale
 		txs = append(txs, r.Mk(o, &tkTag{Kind: "issue", Role: "owner", Sym: t.sym}, &v1.MsgIssueToken{Symbol: t.sym, Name: "fee token", Scale: s, MinUnit: t.mu, InitialSupply: tokentypes.MaximumInitSupply, MaxSupply: math.MaxUint64, Mintable: true, Owner: o.Addr.String()}))
 		if len(txs) == 7 {
 			deliver(txs)
